@@ -154,6 +154,7 @@ static char *spell(const comps_t *c, int slashes)
  * left-to-right reader (host:port, user:passwd@...): the documented shape is only unambiguous with "//". */
 static int needs_slashes(const comps_t *c)
 {
+    if (c->f[F_HOST] && !c->f[F_HOST][0]) return 1;
     if (c->f[F_PROTO]) return 0;
     char *t = spell(c, 0);
     const char *colon = strchr(t, ':');
@@ -194,7 +195,11 @@ static void gen_tuple(comps_t *c, unsigned shape)
         if ((shape >> F_PORT) & 1) {
             /* "host:/p": a port that was given, and is empty -- given all the same, so nothing is filled in from the service database */
             if (vh_coin(6)) { c->f[F_PORT] = strdup(""); vh_count("port_present_and_empty", 1); }
-            else c->f[F_PORT] = gen_from("0123456789", 1, 5);
+            else {
+                c->f[F_PORT] = gen_from("0123456789", 1, 5);
+                /* "//:8080/p": a host that is present and empty in front of a port (always spelled with "//", see needs_slashes) */
+                if (!c->f[F_USER] && vh_coin(8)) { h[0] = 0; vh_count("host_present_and_empty", 1); }
+            }
         }
     }
     if (((shape >> F_PATH) & 1) || !has_host) {
